@@ -168,7 +168,7 @@ def run(ctx):
     for k, (c, msg) in sorted(bad.items()):
         ctx.violation(k, f"{c}: {msg}", {"case": c})
     # ---- T -----------------------------------------------------------------------------
-    cases = runbank.base_cases(ctx) + ion_constructs(ctx, cfgt) + like_charge_constructs(ctx)
+    cases = runbank.base_cases(ctx) + ion_constructs(ctx, cfgt) + like_charge_constructs(ctx) + runbank.kit_cases(ctx, every=1 if ctx.thorough() else 5)
     recs, metas, _ = runbank.run_and_record(ctx, cases)
     texts = {c[0]: c for c in cases}
     ndet = 0
